@@ -316,8 +316,11 @@ pub fn parse_party_identifier(input: &str) -> Result<Option<String>, ParseError>
             parse_swift_chars(id, "party identifier")?;
             return Ok(Some(format!("{}/{}", code, id)));
         }
-    } else if remaining.len() <= 34 {
-        // Simple /34x format (no additional slash)
+    }
+
+    // Simple /34x format: the identifier itself may contain slashes (x includes '/'), so an
+    // identifier that does not start with a /1!a/ or /2!a/ code is taken as a whole
+    if remaining.len() <= 34 {
         parse_swift_chars(remaining, "party identifier")?;
         return Ok(Some(remaining.to_string()));
     }
